@@ -17,6 +17,13 @@ Print Assumptions C01_run_independent_of_global_generator.
 Theorem C01_seed_changes_every_distribution_seed : forall o b b', b <> b' -> seed_gen o b <> seed_gen o b'.
 Proof. exact seed_changes_with_base. Qed.
 Print Assumptions C01_seed_changes_every_distribution_seed.
+(* premises of the abstract machine that are read off the source: no mutable container is bound in a class body (state shared by every instance,
+   hence by every sim of a process), and the only places where the iteration order of a set can reach a value are a display method and a set of
+   integers (whose order does not depend on PYTHONHASHSEED) *)
+Theorem C01_no_state_shared_between_instances : class_level_mutables_gen = [].
+Proof. reflexivity. Qed.
+Theorem C01_set_order_reaches_no_result : hash_order_sites_gen = ["loop.py:__repr__:list({len(arr) for arr in self.abs_tvecs.values()})"; "products.py:administer:list(set(tx_successful))"].
+Proof. reflexivity. Qed.
 (* the classes of the CURRENT source that do read the process-wide generator: the hypothesis of the theorem fails for them (known findings) *)
 Theorem C01_global_generator_users_refuted :
   draws_from_global "Births" = true /\ draws_from_global "RandomNet" = true /\ draws_from_global "NCD" = true /\
